@@ -76,6 +76,12 @@ def generate(rng, tier):
                 elif kind == "galist":
                     for n in range(10):
                         yield op(name, dict(base(), **{attr: L.tok_bytes(L.rand_bytes(rng, 2 * n))}))
+                    # lists are not sets: repeated entries, alternating entries, a repeat that brings the count over the limit
+                    for n in range(2, 9):
+                        a, b = L.rand_bytes(rng, 2), L.rand_bytes(rng, 2)
+                        for lst in (a * n, (a + b) * (n // 2) + a * (n % 2), a + b * (n - 2) + a, bytes(2 * n), b"\xff\xff" * n,
+                                    b"".join(L.rand_bytes(rng, 2) for _ in range(n - 1)) + a + a):
+                            yield op(name, dict(base(), **{attr: L.tok_bytes(lst)}))
                 elif kind == "scf":
                     for ta, al, sb, sv in itertools.product("TF", (0, 1), "TF", (0, 2, 3)):
                         yield op(name, dict(base(), **{attr + ".tool_access": "b" + ta, attr + ".algorithm": f"i{al}",
